@@ -167,7 +167,7 @@ PROPS = {
     },
     'C15': {
         'level': 'proof',
-        'proof': [('contracts.lock', None)],
+        'proof': [('contracts.lock', None), ('contracts.ctxlock', None)],
         'bounded': [],
         'custom': [('contracts.lock', 'bounded_path_lock',
                     'all nestings of <=3 (quick) / <=4 (thorough) reentrant path_lock requests of one thread on 2 real files')],
